@@ -211,3 +211,16 @@ def outcome_class(o):
 def short(o, n=300):
     s = repr(o)
     return s if len(s) <= n else s[:n] + '...'
+
+
+def same_outcome(a, b):
+    """Equality of normal forms that also distinguishes 1 / 1.0 / True and
+    str / bytes (Python's == does not)."""
+    if a != b:
+        return False
+    ra, rb = repr(a), repr(b)
+    if ra == rb:
+        return True
+    if ' at 0x' in ra or ' at 0x' in rb:
+        return True
+    return False
